@@ -1,73 +1,24 @@
-(* Recorded findings for C15 (findings_proposed/C15.txt): for each finding k a reachable well-formed
-   state and a call whose trigger is k after which the faithful model (which equals the code on
-   these histories, see harness/witnesses_c15.py) is not well formed.  If this file stops compiling a
-   finding is stale, which the check reports as such (it is not a violation). *)
+(* Recorded findings for C15: none.  The eight call shapes that used to break well-formedness
+   (put-region-replace, remove-region-outside-body, set-region-by-id, set-doc-none-half-applied,
+   set-doc-on-child, push-children-half-applied, rtc-lone-rp, rtc-push-children-appends) were repaired in
+   model.py (`fix:` commits); their `..._refuted` theorems are gone with them and the theorems of
+   Properties/C15.v no longer exclude any call.  The witnesses stay in harness/witnesses_c15.py and must
+   pass.  The former witness histories are replayed here on the model of the repaired code. *)
 From Coq Require Import List Arith Bool Lia.
 From TT Require Import Proofs.C15.All.
 Import ListNotations.
 
-Definition refutes (k : nat) (elems : list (kind * option nat * option nat)) (pre : list call) (c : call) : Prop :=
-  let h := run (init elems 1) pre in
-  admissible (init elems 1) pre = true /\ WF h /\ trigger h c = Some k /\ ~ WF (fst (step h c)).
-
-Ltac pre_ok := split; [vm_compute; reflexivity|split; [apply wf_b_sound; vm_compute; reflexivity|split; [vm_compute; reflexivity|]]].
-(* element i references region r, which is not the one registered under its id *)
-Ltac bad_region i r :=
-  intros (_ & _ & _ & _ & (W1 & _) & _);
-  destruct (W1 i r ltac:(vm_compute; lia) eq_refl) as [_ (d & id & E1 & E2 & E3)];
-  vm_compute in E1; vm_compute in E2; injection E1 as <-; injection E2 as <-; vm_compute in E3; discriminate E3.
-Ltac bad_doc c p :=
-  intros (_ & _ & W & _); specialize (W c p ltac:(vm_compute; lia) eq_refl); vm_compute in W; discriminate W.
-Ltac bad_content p cs :=
-  intros (_ & _ & _ & W & _);
-  match type of W with WF_content ?h =>
-    assert (C : Children h p cs) by (apply children_b_sound; vm_compute; reflexivity);
-    specialize (W p cs ltac:(vm_compute; lia) C); vm_compute in W; discriminate W
-  end.
-
 Definition r1 := Some 1.
-Theorem C15_put_region_replace_refuted :
-  refutes 1 [(KRegion, Some 0, r1); (KRegion, Some 0, r1); (KP, Some 0, None)]
-          [CPutRegion 0 0; CSetRegion 2 (Some 0)] (CPutRegion 0 1).
-Proof. pre_ok. bad_region 2 0. Qed.
-Theorem C15_remove_region_outside_body_refuted :
-  refutes 2 [(KRegion, Some 0, r1); (KP, Some 0, None)] [CPutRegion 0 0; CSetRegion 1 (Some 0)] (CRemoveRegion 0 1).
-Proof. pre_ok. bad_region 1 0. Qed.
-Theorem C15_set_region_by_id_refuted :
-  refutes 3 [(KRegion, Some 0, r1); (KRegion, Some 0, r1); (KP, Some 0, None)] [CPutRegion 0 0] (CSetRegion 2 (Some 1)).
-Proof. pre_ok. bad_region 2 1. Qed.
-Theorem C15_set_doc_none_half_applied_refuted :
-  refutes 4 [(KP, Some 0, None); (KSpan, Some 0, None)] [CPushChild 0 1] (CSetDoc 0 None).
-Proof. pre_ok. bad_doc 1 0. Qed.
-Theorem C15_set_doc_on_child_refuted :
-  refutes 5 [(KP, None, None); (KSpan, None, None)] [CPushChild 0 1] (CSetDoc 1 (Some 0)).
-Proof. pre_ok. bad_doc 1 0. Qed.
-Theorem C15_push_children_half_applied_refuted :
-  refutes 6 [(KRuby, Some 0, None); (KRbc, Some 0, None); (KRtc, None, None)] [] (CPushChildren 0 [1; 2]).
-Proof. pre_ok. bad_content 0 [1]. Qed.
-Theorem C15_rtc_lone_rp_refuted :
-  refutes 7 [(KRtc, Some 0, None); (KRp, Some 0, None)] [] (CPushChild 0 1).
-Proof. pre_ok. bad_content 0 [1]. Qed.
-Theorem C15_rtc_push_children_appends_refuted :
-  refutes 8 [(KRtc, Some 0, None); (KRt, Some 0, None); (KRp, Some 0, None); (KRt, Some 0, None); (KRp, Some 0, None)]
-          [CPushChild 0 1] (CPushChildren 0 [2; 3; 4]).
-Proof. pre_ok. bad_content 0 [1; 2; 3; 4]. Qed.
-
-(* finding 4 also breaks atomicity: the call is rejected and the state has changed *)
-Theorem C15_atomic_refuted :
-  exists h c e, WF h /\ single_element c = true /\ snd (step h c) = ORaised e /\ fst (step h c) <> h.
-Proof.
-  exists (run (init [(KP, Some 0, None); (KSpan, Some 0, None)] 1) [CPushChild 0 1]), (CSetDoc 0 None), ERuntime.
-  split; [apply wf_b_sound; vm_compute; reflexivity|]. split; [reflexivity|]. split; [vm_compute; reflexivity|].
-  vm_compute. discriminate.
-Qed.
-
-Print Assumptions C15_put_region_replace_refuted.
-Print Assumptions C15_remove_region_outside_body_refuted.
-Print Assumptions C15_set_region_by_id_refuted.
-Print Assumptions C15_set_doc_none_half_applied_refuted.
-Print Assumptions C15_set_doc_on_child_refuted.
-Print Assumptions C15_push_children_half_applied_refuted.
-Print Assumptions C15_rtc_lone_rp_refuted.
-Print Assumptions C15_rtc_push_children_appends_refuted.
-Print Assumptions C15_atomic_refuted.
+Definition stays_wf (elems : list (kind * option nat * option nat)) (calls : list call) : bool :=
+  wf_b (run (init elems 1) calls) && rep_b (run (init elems 1) calls).
+Example former_witnesses_now_well_formed :
+  stays_wf [(KRegion, Some 0, r1); (KRegion, Some 0, r1); (KP, Some 0, None)] [CPutRegion 0 0; CSetRegion 2 (Some 0); CPutRegion 0 1] = true /\
+  stays_wf [(KRegion, Some 0, r1); (KP, Some 0, None)] [CPutRegion 0 0; CSetRegion 1 (Some 0); CRemoveRegion 0 1] = true /\
+  stays_wf [(KRegion, Some 0, r1); (KRegion, Some 0, r1); (KP, Some 0, None)] [CPutRegion 0 0; CSetRegion 2 (Some 1)] = true /\
+  stays_wf [(KP, Some 0, None); (KSpan, Some 0, None)] [CPushChild 0 1; CSetDoc 0 None] = true /\
+  stays_wf [(KP, None, None); (KSpan, None, None)] [CPushChild 0 1; CSetDoc 1 (Some 0)] = true /\
+  stays_wf [(KRuby, Some 0, None); (KRbc, Some 0, None); (KRtc, None, None)] [CPushChildren 0 [1; 2]] = true /\
+  stays_wf [(KRtc, Some 0, None); (KRp, Some 0, None)] [CPushChild 0 1] = true /\
+  stays_wf [(KRtc, Some 0, None); (KRt, Some 0, None); (KRp, Some 0, None); (KRt, Some 0, None); (KRp, Some 0, None)]
+           [CPushChild 0 1; CPushChildren 0 [2; 3; 4]] = true.
+Proof. vm_compute. repeat split. Qed.
